@@ -56,6 +56,8 @@ struct SrvCase {
     /// first frame: flag and which compressor produced the payload
     flag: u8,
     payload_comp: Option<Enc>,
+    /// the frame carries a zero-length payload (an empty message when flag = 0)
+    empty: bool,
 }
 
 const REQ_MSG: [u8; 6] = [1, 2, 3, 4, 5, 6];
@@ -70,9 +72,13 @@ fn srv_body(c: &SrvCase, ch: &Chooser) -> Outcome {
     for e in &c.accept {
         server = server.accept_compressed(tonic_enc(*e));
     }
-    let payload = match c.payload_comp {
-        Some(e) => comp::compress(e, &REQ_MSG),
-        None => REQ_MSG.to_vec(),
+    let payload = if c.empty {
+        vec![]
+    } else {
+        match c.payload_comp {
+            Some(e) => comp::compress(e, &REQ_MSG),
+            None => REQ_MSG.to_vec(),
+        }
     };
     let body = wire::encode_frame(c.flag, &payload);
     let mut b = http::Request::builder()
@@ -141,6 +147,7 @@ fn srv_body(c: &SrvCase, ch: &Chooser) -> Outcome {
             } else {
                 match neg {
                     None => Want::Internal,
+                    Some(_) if c.empty => Want::Open, // a zero-byte payload is not a valid compressed stream
                     Some(e) if c.payload_comp == Some(*e) => Want::HandlerSees,
                     Some(_) => Want::Open,
                 }
@@ -178,7 +185,8 @@ fn srv_body(c: &SrvCase, ch: &Chooser) -> Outcome {
             }
         }
         Want::HandlerSees => {
-            if log.calls != 1 || log.req_msgs != vec![REQ_MSG.to_vec()] || status_hdr.as_deref() != Some("0") {
+            let want_msg: Vec<u8> = if c.empty { vec![] } else { REQ_MSG.to_vec() };
+            if log.calls != 1 || log.req_msgs != vec![want_msg] || status_hdr.as_deref() != Some("0") {
                 o.violate("valid-request-refused", format!("request was well-formed for the negotiated encoding but grpc-status={:?}, handler calls={}, msgs={:?} err={:?}", status_hdr, log.calls, log.req_msgs, log.req_err));
             }
         }
@@ -264,15 +272,15 @@ fn srv_cases(tier: Tier) -> Vec<SrvCase> {
                 }
                 // accept set varies too: it must not influence the response encoding
                 let accept = subsets[(n + si) % subsets.len()].clone();
-                out.push(SrvCase { shape: *shape, send: send.clone(), accept, offer: offer.clone(), req_encoding: None, flag: 0, payload_comp: None });
+                out.push(SrvCase { shape: *shape, send: send.clone(), accept, offer: offer.clone(), req_encoding: None, flag: 0, payload_comp: None, empty: false });
             }
         }
     }
     // request acceptance: accept-set x grpc-encoding x (flag, payload)
-    let payloads: Vec<(u8, Option<Enc>)> = vec![(0, None), (1, None), (1, Some(Enc::Gzip)), (1, Some(Enc::Deflate)), (1, Some(Enc::Zstd)), (0, Some(Enc::Gzip))];
+    let payloads: Vec<(u8, Option<Enc>, bool)> = vec![(0, None, false), (1, None, false), (1, Some(Enc::Gzip), false), (1, Some(Enc::Deflate), false), (1, Some(Enc::Zstd), false), (0, Some(Enc::Gzip), false), (1, None, true), (0, None, true)];
     for accept in &subsets {
         for re in req_encodings() {
-            for (flag, pc) in &payloads {
+            for (flag, pc, empty) in &payloads {
                 n += 1;
                 for (si, shape) in Shape::ALL.iter().enumerate() {
                     if tier == Tier::Quick && n % 4 != si {
@@ -280,7 +288,7 @@ fn srv_cases(tier: Tier) -> Vec<SrvCase> {
                     }
                     let send = subsets[(n + si) % subsets.len()].clone();
                     let offer = if n % 3 == 0 { Some(b"gzip,deflate,zstd".to_vec()) } else { None };
-                    out.push(SrvCase { shape: *shape, send, accept: accept.clone(), offer, req_encoding: re.clone(), flag: *flag, payload_comp: *pc });
+                    out.push(SrvCase { shape: *shape, send, accept: accept.clone(), offer, req_encoding: re.clone(), flag: *flag, payload_comp: *pc, empty: *empty });
                 }
             }
         }
@@ -300,6 +308,8 @@ struct CliCase {
     resp_encoding: Option<Vec<u8>>,
     resp_flag: u8,
     resp_comp: Option<Enc>,
+    /// zero-length payload in the response frame
+    resp_empty: bool,
 }
 
 #[derive(Clone)]
@@ -344,9 +354,13 @@ fn cli_body(c: &CliCase, ch: &Chooser) -> Outcome {
     if let Some(v) = &c.resp_encoding {
         h.insert("grpc-encoding", HeaderValue::from_bytes(v).unwrap());
     }
-    let payload = match c.resp_comp {
-        Some(e) => comp::compress(e, &RESP_MSG),
-        None => RESP_MSG.to_vec(),
+    let payload = if c.resp_empty {
+        vec![]
+    } else {
+        match c.resp_comp {
+            Some(e) => comp::compress(e, &RESP_MSG),
+            None => RESP_MSG.to_vec(),
+        }
     };
     let svc = Canned { capture: capture.clone(), resp_headers: h, resp_body: wire::encode_frame(c.resp_flag, &payload), ch: ch.clone() };
     let mut client = EchoClient::new(svc);
@@ -442,7 +456,7 @@ fn cli_body(c: &CliCase, ch: &Chooser) -> Outcome {
                 if code != Some(tonic::Code::Internal) {
                     o.violate("client-compressed-flag-without-encoding", format!("flag=1 response without negotiated encoding ended {:?}", view.error.as_ref().map(fmt_status)));
                 }
-            } else if (c.resp_flag == 0 && c.resp_comp.is_none()) || (c.resp_flag == 1 && neg == c.resp_comp) {
+            } else if !c.resp_empty && ((c.resp_flag == 0 && c.resp_comp.is_none()) || (c.resp_flag == 1 && neg == c.resp_comp)) {
                 if view.error.is_some() || view.msgs != vec![RESP_MSG.to_vec()] {
                     o.violate("client-refuses-valid-response", format!("well-formed response but caller saw {}", fmt_view(&view)));
                 }
@@ -455,27 +469,29 @@ fn cli_body(c: &CliCase, ch: &Chooser) -> Outcome {
 fn cli_cases(_tier: Tier) -> Vec<CliCase> {
     let mut out = vec![];
     let subsets = ordered_subsets();
-    let resp: Vec<(Option<Vec<u8>>, u8, Option<Enc>)> = vec![
-        (None, 0, None),
-        (None, 1, Some(Enc::Gzip)),
-        (None, 1, None),
-        (Some(b"identity".to_vec()), 0, None),
-        (Some(b"identity".to_vec()), 1, Some(Enc::Gzip)),
-        (Some(b"gzip".to_vec()), 1, Some(Enc::Gzip)),
-        (Some(b"gzip".to_vec()), 0, None),
-        (Some(b"deflate".to_vec()), 1, Some(Enc::Deflate)),
-        (Some(b"zstd".to_vec()), 1, Some(Enc::Zstd)),
-        (Some(b"GZIP".to_vec()), 1, Some(Enc::Gzip)),
-        (Some(b"br".to_vec()), 0, None),
-        (Some(vec![0xfc]), 0, None),
+    let resp: Vec<(Option<Vec<u8>>, u8, Option<Enc>, bool)> = vec![
+        (None, 1, None, true),
+        (Some(b"identity".to_vec()), 1, None, true),
+        (None, 0, None, false),
+        (None, 1, Some(Enc::Gzip), false),
+        (None, 1, None, false),
+        (Some(b"identity".to_vec()), 0, None, false),
+        (Some(b"identity".to_vec()), 1, Some(Enc::Gzip), false),
+        (Some(b"gzip".to_vec()), 1, Some(Enc::Gzip), false),
+        (Some(b"gzip".to_vec()), 0, None, false),
+        (Some(b"deflate".to_vec()), 1, Some(Enc::Deflate), false),
+        (Some(b"zstd".to_vec()), 1, Some(Enc::Zstd), false),
+        (Some(b"GZIP".to_vec()), 1, Some(Enc::Gzip), false),
+        (Some(b"br".to_vec()), 0, None, false),
+        (Some(vec![0xfc]), 0, None, false),
     ];
     let mut n = 0;
     for send in [None, Some(Enc::Gzip), Some(Enc::Deflate), Some(Enc::Zstd)] {
         for accept in &subsets {
-            for (re, flag, comp) in &resp {
+            for (re, flag, comp, empty) in &resp {
                 n += 1;
                 let shape = Shape::ALL[n % 4];
-                out.push(CliCase { shape, send, accept: accept.clone(), resp_encoding: re.clone(), resp_flag: *flag, resp_comp: *comp });
+                out.push(CliCase { shape, send, accept: accept.clone(), resp_encoding: re.clone(), resp_flag: *flag, resp_comp: *comp, resp_empty: *empty });
             }
         }
     }
@@ -488,7 +504,7 @@ pub fn property(tier: Tier) -> Property {
         Config::default(),
         "cases: generated server with every ordered subset of {gzip,deflate,zstd} enabled for sending (16) x request grpc-accept-encoding from a menu (absent, empty, identity, unknown tokens, upper-case, obs-text, near-miss tokens, every ordered subset joined with ',' / ', ' / ' ,', with identity / unknown tokens added) x call shape; and every ordered accept subset (16) x request grpc-encoding {absent, identity, gzip, deflate, zstd, GZIP, br, obs-text, empty, ' gzip'} x first frame {flag 0 raw, flag 1 raw, flag 1 compressed with each encoding, flag 0 compressed} x shape (quick: each (set, header) pair with one rotating shape). Oracle: announced response encoding must be in the send set and offered (token match modulo space and ASCII case), flag-1 payloads decompress with it, no announcement => all flags 0; request naming nothing enabled => UNIMPLEMENTED + grpc-accept-encoding == enabled set; flag 1 without negotiated encoding => INTERNAL; well-formed => handler sees the message. Non-trivial = any encoding configured/announced or flag 1.",
         srv_cases(tier),
-        |c: &SrvCase| format!("{:?} send={{{}}} accept={{{}}} offer={:?} grpc-encoding={:?} flag={} payload_comp={:?}", c.shape, names(&c.send), names(&c.accept), c.offer.as_ref().map(|v| String::from_utf8_lossy(v).to_string()), c.req_encoding.as_ref().map(|v| String::from_utf8_lossy(v).to_string()), c.flag, c.payload_comp.map(|e| e.name())),
+        |c: &SrvCase| format!("{:?} send={{{}}} accept={{{}}} offer={:?} grpc-encoding={:?} flag={} payload_comp={:?} empty={}", c.shape, names(&c.send), names(&c.accept), c.offer.as_ref().map(|v| String::from_utf8_lossy(v).to_string()), c.req_encoding.as_ref().map(|v| String::from_utf8_lossy(v).to_string()), c.flag, c.payload_comp.map(|e| e.name()), c.empty),
         srv_body,
     )
     .mins(1000, 20, 200);
